@@ -50,6 +50,8 @@ ACCESSORS = {
     ("Ciphertext", "contains_seed", 0): ("bool", "{0}.seeded"),
     ("Ciphertext", "data", 0): (("vec", "u64"), "{0}.data"),
     ("Ciphertext", "poly", 1): (("vec", "u64"), "({0}.poly {1})"),
+    ("Ciphertext", "coeff_modulus_size", 0): ("usize", "{0}.cms"),
+    ("Ciphertext", "poly_modulus_degree", 0): ("usize", "{0}.deg"),
 }
 # associated functions: (type, name, number of arguments) -> (result type, Lean template, guard template or None)
 # a guard is the condition under which the Rust function does NOT panic (read off its body; the pattern checks in `check_setters`
@@ -314,6 +316,17 @@ class Lower:
                 v = self.fresh()
                 return self.bind(mc, v, k(v, mt))
             return r(kt)
+        if tag == "index" and e[2][0] == "range":
+            lo, hi, incl = e[2][1], e[2][2], e[2][3]
+            if incl or hi is None: self.fail("slice range form")
+            def ksl(cb, tb):
+                if not (isinstance(tb, tuple) and tb[0] == "vec"): self.fail("slicing a non-vector")
+                def kh(ch, th):
+                    if lo is None:
+                        return f"if {ch} ≤ {cb}.length then\n" + k(f"({cb}.take {ch})", tb) + f"\nelse {self.panic()}"
+                    return self.ce(lo, env, lambda cl, tl: f"if {cl} ≤ {ch} ∧ {ch} ≤ {cb}.length then\n" + k(f"(({cb}.drop {cl}).take ({ch} - {cl}))", tb) + f"\nelse {self.panic()}")
+                return self.ce(hi, env, kh)
+            return self.ce(e[1], env, ksl)
         if tag == "index":
             def ki(cb, tb):
                 def kj(ci, ti):
@@ -650,7 +663,7 @@ class Lower:
         if e[0] == "call" and e[1] == ["Ok"] and len(e[2]) == 1: return self.ce(e[2][0], env, lambda c, t: self.pure(c))
         if e[0] == "call" and e[1] == ["Err"]:
             if self.mode == "R": return "rfail .bad"
-            self.fail("`Err(..)` in a writer")
+            return "winvalid"
         if e[0] == "match": return self.cmatch(e, env, lambda blk, env2: self.cs(list(blk[0]), blk[1], dict(env2), None, "TAIL"))
         if e[0] == "if":
             if e[3] is None: self.fail("`if` without else as the result")
@@ -772,9 +785,10 @@ def indent(s, n): return "\n".join(" " * n + l for l in s.split("\n"))
 
 PRELUDE = """/-! ### the three readings (fixed text emitted by tools/rs2lean_ser.py) -/
 
-/-- failure of a writer: the stream's own error (propagated by `?`), or a panic (`assert_eq!`) -/
+/-- failure of a writer: the stream's own error (propagated by `?`), a panic (`assert_eq!`, slice bounds), or the writer's own
+    `Err(io::Error::new(InvalidData, ..))` -/
 inductive WErr (E : Type) where
-  | io (e : E) | panic
+  | io (e : E) | panic | invalid
   deriving Repr
 
 /-- a writer program: runs on a stream state, returns `Ok(value)` / `Err` AND the stream as it is afterwards
@@ -786,6 +800,7 @@ def wbind {S E α β : Type} (m : W S E α) (f : α → W S E β) : W S E β := 
   | (.ok a, s') => f a s'
   | (.error e, s') => (.error e, s')
 def wpanic {S E α : Type} : W S E α := fun s => (.error .panic, s)
+def winvalid {S E α : Type} : W S E α := fun s => (.error .invalid, s)
 /-- what `T: Write` offers: `write` (count of bytes taken) and `write_all` -/
 structure WStream (S E : Type) where
   write : Bytes → S → Except E Nat × S
@@ -829,6 +844,8 @@ structure CtV where
   seeded : Bool
   data : List Nat
   poly : Nat → List Nat
+  cms : Nat       -- `coeff_modulus_size()`
+  deg : Nat       -- `poly_modulus_degree()`
 """
 
 
@@ -964,6 +981,7 @@ TABLE = (
     + [{"fn": "get_u64_limit", "mode": "P", "lean": "get_u64_limit", "where": "fn get_u64_limit"},
        {"fn": "write_u64_limited", "mode": "W", "lean": "write_u64_limited", "where": "fn write_u64_limited"},
        {"fn": "read_u64_limited", "mode": "R", "lean": "read_u64_limited", "where": "fn read_u64_limited"},
+       {"fn": "serialize_full", "impl": "Ciphertext", "selfty": "Ciphertext", "mode": "W", "lean": "ct_serialize_full", "where": "impl Ciphertext :: serialize_full", "ctx_first": True},
        {"fn": "serialized_full_size", "impl": "Ciphertext", "selfty": "Ciphertext", "mode": "T", "lean": "ct_serialized_full_size", "where": "impl Ciphertext :: serialized_full_size", "ctx_first": True},
        {"fn": "serialized_size", "impl": "SerializableWithHeContext for Ciphertext", "selfty": "Ciphertext", "mode": "P", "lean": "ct_serialized_size", "where": "impl SerializableWithHeContext for Ciphertext :: serialized_size", "ctx_first": True},
        {"fn": "serialized_terms_size", "impl": "Ciphertext", "selfty": "Ciphertext", "mode": "P", "lean": "ct_serialized_terms_size", "where": "impl Ciphertext :: serialized_terms_size", "ctx_first": True}]
